@@ -1003,6 +1003,170 @@ fn run_nonergodic() {
     nonergodic_case("2spin", 2, &[field(0), field(1), bias, xc]);
 }
 
+// ------------------------------------------------------------------------------------------
+// heat-bath bond-weight table of the generic sampler on tables with >= 3 variables.
+// `make_bond_weights` enumerates substates as `(substate >> v) & 1` (variable 0 = least significant bit)
+// while `Interaction` tables use variable 0 as the most significant bit, so the unique maximum of a
+// 3-variable table is put at each of the 8 table indices in turn. Oracle (real code only): every stored
+// per-bond maximum equals the maximum over all 2^k substates of the diagonal entry recomputed from the
+// user's matrix (and of `Interaction::at`), bond column = 0.., cumulative column = running sum.
+// Everything about a case is determined by its input line (state all-false, heat bath switched on after
+// the calls, fixed sampler RNG).
+// ------------------------------------------------------------------------------------------
+
+/// diagonal weights the sampler should hold for an accepted call, in `Interaction` table order
+/// (first variable = most significant bit), recomputed from the user's matrix
+fn diag_weights(c: &Call) -> Vec<f64> {
+    let tn = 1usize << c.vars.len();
+    let d: Vec<f64> = if c.variant >= 2 { c.mat.clone() } else { (0..tn).map(|i| c.mat[i * tn + i]).collect() };
+    if c.variant == 1 || c.variant == 3 {
+        let md = d.iter().cloned().fold(f64::MAX, f64::min);
+        d.iter().map(|x| x - md).collect()
+    } else {
+        d
+    }
+}
+
+/// 2^k eighths in [0, 6/8] with a unique maximum in [7/8, 2] at index `pos`
+fn peaked_table(g: &mut SplitMix64, k: usize, pos: usize) -> Vec<f64> {
+    let mut t: Vec<f64> = (0..1usize << k).map(|_| e8(g, 0, 6)).collect();
+    t[pos] = e8(g, 7, 16);
+    t
+}
+
+/// full matrix over `k` variables with the given diagonal and sparse off-diagonal entries
+fn full_with_diag(g: &mut SplitMix64, k: usize, diag: &[f64]) -> Vec<f64> {
+    let tn = 1usize << k;
+    let mut m: Vec<f64> = (0..tn * tn).map(|_| if g.chance(1, 4) { e8(g, 1, 8) } else { 0.0 }).collect();
+    for r in 0..tn {
+        m[r * tn + r] = diag[r];
+    }
+    m
+}
+
+fn hbtable_case(nvars: usize, calls: &[Call], beta: f64) {
+    let input = format!("hbtable {} {} {}", nvars, show_calls(calls), rat(beta));
+    let mut q = QS::new_with_state(nvars, SplitMix64::new(7), vec![false; nvars], false);
+    let accepted: Vec<&Call> = calls.iter().filter(|c| apply_call(&mut q, c).is_ok()).collect();
+    q.set_do_heatbath(true);
+    if let Err(p) = catch(|| q.diagonal_update(beta)) {
+        emit(true, &input, "P", Some(Err(format!("diagonal_update panicked: {}", p))));
+        return;
+    }
+    let big = accepted.iter().any(|c| c.vars.len() >= 3);
+    let js = serde_json::to_value(&q).unwrap();
+    let t = &js["bond_weights"];
+    let oracle = (|| -> Result<(), String> {
+        if t.is_null() {
+            return Err("heat bath is on and a diagonal update ran, but no bond-weight table is stored".into());
+        }
+        let rows = t["max_weight_and_cumulative"].as_array().ok_or("bond_weights has no max_weight_and_cumulative array")?;
+        let bond: Vec<u64> = rows.iter().map(|r| r[0].as_u64().unwrap_or(u64::MAX)).collect();
+        let mx: Vec<f64> = rows.iter().map(|r| r[1].as_f64().unwrap_or(f64::NAN)).collect();
+        let cum: Vec<f64> = rows.iter().map(|r| r[2].as_f64().unwrap_or(f64::NAN)).collect();
+        // expected maxima from the user's matrices
+        let want: Vec<f64> = accepted.iter().map(|c| diag_weights(c).into_iter().fold(0.0, f64::max)).collect();
+        if q.get_bonds().len() != accepted.len() {
+            return Err(format!("{} bonds stored for {} accepted calls", q.get_bonds().len(), accepted.len()));
+        }
+        if mx != want {
+            let at = (0..want.len()).find(|i| mx.get(*i) != Some(&want[*i])).unwrap_or(want.len().min(mx.len()));
+            return Err(format!(
+                "stored per-bond maxima {} but the maxima of the diagonal entries over all substates are {} (first difference at bond {})",
+                rats(&mx), rats(&want), at
+            ));
+        }
+        // the same maxima through the sampler's own matrix elements (Interaction::at on every substate)
+        for (b, c) in accepted.iter().enumerate() {
+            let mut m = 0.0f64;
+            for pat in patterns(c.vars.len()) {
+                let w = q.get_bonds()[b].at(&pat, &pat).map_err(|e| format!("at() failed on bond {}: {}", b, e))?;
+                m = m.max(w);
+            }
+            if m != mx[b] {
+                return Err(format!("bond {}: stored maximum {} but max over substates of Interaction::at = {} (stored {})", b, rat(mx[b]), rat(m), rats(&mx)));
+            }
+        }
+        if bond != (0..mx.len() as u64).collect::<Vec<_>>() {
+            return Err(format!("bond column {:?} is not 0..{}", bond, mx.len()));
+        }
+        let mut run = 0.0;
+        for (i, m) in mx.iter().enumerate() {
+            run = if i == 0 { *m } else { m + run };
+            if cum[i] != run {
+                return Err(format!("cumulative column {} is not the running sum of the maxima {}", rats(&cum), rats(&mx)));
+            }
+        }
+        Ok(())
+    })();
+    stat(&format!("hbtable_nbonds_{}", accepted.len()), 1);
+    emit(big, &input, "-", Some(oracle));
+}
+
+fn run_hbtable(g: &mut SplitMix64, thorough: bool) {
+    let n = if thorough { 480 } else { 64 };
+    for s in 0..n {
+        let pos = s % 8; // table index of the unique maximum of the main 3-variable term
+        let kind = (s / 8) % 4;
+        let want4 = g.chance(1, 4);
+        let nvars = if want4 { g.range(4, 5) } else { g.range(3, 5) } as usize;
+        let mut calls = vec![];
+        // random 1-/2-variable terms
+        for _ in 0..g.range(0, 3) {
+            let k = g.range(1, 2) as usize;
+            let vars = distinct_vars(g, nvars, k);
+            let d: Vec<f64> = (0..1usize << k).map(|_| e8(g, 0, 16)).collect();
+            match g.below(3) {
+                0 => calls.push(Call { variant: 2, mat: d, vars }),
+                1 => {
+                    let sh = e8(g, -8, 8);
+                    calls.push(Call { variant: 3, mat: d.iter().map(|x| x + sh).collect(), vars })
+                }
+                _ => {
+                    let mat = full_with_diag(g, k, &d);
+                    calls.push(Call { variant: 0, mat, vars })
+                }
+            }
+        }
+        // the main 3-variable term
+        let vars = distinct_vars(g, nvars, 3);
+        let d = peaked_table(g, 3, pos);
+        let main = match kind {
+            0 | 1 => Call { variant: 2, mat: d, vars },
+            2 => {
+                let sh = e8(g, -8, 8);
+                Call { variant: 3, mat: d.iter().map(|x| x + sh).collect(), vars }
+            }
+            _ => {
+                if g.coin() {
+                    let mat = full_with_diag(g, 3, &d);
+                    Call { variant: 0, mat, vars }
+                } else {
+                    let sh = e8(g, -8, 8);
+                    let ds: Vec<f64> = d.iter().map(|x| x + sh).collect();
+                    let mat = full_with_diag(g, 3, &ds);
+                    Call { variant: 1, mat, vars }
+                }
+            }
+        };
+        stat(&format!("hbtable_main3_{}_peak_at_{}", vname(main.variant), pos), 1);
+        let at = g.below(calls.len() as u64 + 1) as usize;
+        calls.insert(at, main);
+        // sometimes a second large diagonal table (3 or 4 variables), maximum anywhere
+        if want4 || g.chance(1, 3) {
+            let k = if want4 { 4 } else { 3 };
+            let vars = distinct_vars(g, nvars, k);
+            let p2 = g.below(1u64 << k) as usize;
+            let d = peaked_table(g, k, p2);
+            stat(&format!("hbtable_second_arity_{}", k), 1);
+            let at = g.below(calls.len() as u64 + 1) as usize;
+            calls.insert(at, Call { variant: 2, mat: d, vars });
+        }
+        let beta = *g.pick(&[0.25, 0.5, 1.0, 2.0]);
+        hbtable_case(nvars, &calls, beta);
+    }
+}
+
 fn main() {
     quiet_panics();
     let a = args();
@@ -1022,5 +1186,8 @@ fn main() {
     }
     if all || a.mode == "nonergodic" {
         run_nonergodic();
+    }
+    if all || a.mode == "hbtable" {
+        run_hbtable(&mut g, a.thorough);
     }
 }
